@@ -963,6 +963,7 @@ class Stream:
             return
         cs = world.cs
         head = cs.current_chain_hash
+        state = preempt.ModuleState([cons, csm, bal, pw, dt, sg, mt, hm, ser])
         try:
             for _ in range(npairs):
                 rb_bad, now_bad, cls = rng.choice(bad)
@@ -997,11 +998,19 @@ class Stream:
                     ks = pre.points_by_location(rng, points)
                     c["two_thread_locations_seen"] = len(pre.loc_uses)
                     for k in ks:
+                        state.restore()
                         a, b, ran = pre.run(ja, jb, k)
                         if not ran:
                             continue
                         c["two_thread_switch_points"] = c.get("two_thread_switch_points", 0) + 1
                         got_bad, got_ok = (a, b) if first_is_bad else (b, a)
+                        # what the race left behind: both validations once more, alone
+                        a2, b2 = preempt.safe(ja), preempt.safe(jb)
+                        again_bad, again_ok = (a2, b2) if first_is_bad else (b2, a2)
+                        if got_bad is not True and again_bad is True:
+                            got_bad = True
+                        if got_ok is True and again_ok is not True:
+                            got_ok = again_ok
                         if got_bad is True:
                             codes = ref.block_codes(world.chain, rb_bad, now_bad) & self.prop_codes
                             w = dict(self.witness(world, rb_bad, now_bad, cls), two_threads=True, other_candidate=enc_ok.hex(),
@@ -1015,6 +1024,7 @@ class Stream:
                             self.v("valid-block-refused-while-another-thread-validates", "a fully valid block is refused (%r) when another "
                                    "thread validates a %s block at the same time (switch at event %d of %d)" % (got_ok, cls, k, total), w)
         finally:
+            state.restore()
             pre.close()
 
     def replay(self, w, rng):
